@@ -305,6 +305,10 @@ def mc_proc_params(iface, sigma, N, maxlen, legacy="", faults=True):
         ("ModelFaults", "TRUE" if faults else "FALSE")])
 
 
+C07_EXTRA = ["A:S \"x\ny\"", "A:K #13a\nb", "A:E? 'a long answer, longer than its query'", "A:H? #215fifteen\nbytes..", "MEAS:VOLT?", "A:B:D?",
+             "A:E? \"r\ns\"", "*Q?", "C?", "*I?"]
+
+
 def c07(tier):
     s = Session("C07", tier)
     C.build_harness()
@@ -329,7 +333,7 @@ def c07(tier):
                 cases.append(procset_case(st, N, [{"chunks": c} for c in compositions(n)], iface="tiny"))
     # 2b. message streams over the main interface: path rules, faults, queries
     hist = []
-    s.model("MCScpiRun", mc_run_params(VOCAB_FAULT, 2, 2, emit=True), on_line=lambda it: hist.append(it["msgs"]),
+    s.model("MCScpiRun", mc_run_params(VOCAB_FAULT[:12] if tier == "quick" else VOCAB_FAULT, 2, 2, emit=True), on_line=lambda it: hist.append(it["msgs"]),
             label="MCScpiRun(fault vocabulary, units<=2, msgs<=2)")
     s.rng.shuffle(hist)
     nh = 2500 if tier == "quick" else 30000
@@ -343,7 +347,7 @@ def c07(tier):
     # 2c. seeded long streams, also arbitrary bytes
     nlong = 40 if tier == "quick" else 400
     for i in range(nlong):
-        msgs = [m.encode("latin1") for m in random_history(s.rng, VOCAB_FAULT + VOCAB_PATH, s.rng.randint(10, 80))]
+        msgs = [m.encode("latin1") for m in random_history(s.rng, VOCAB_FAULT + VOCAB_PATH + C07_EXTRA, s.rng.randint(10, 80))]
         whole = b"".join(msgs)
         if i % 4 == 3:   # corrupt: arbitrary bytes
             ba = bytearray(whole)
@@ -353,6 +357,13 @@ def c07(tier):
         N = s.rng.choice([8, 16, 47, 64, 128])
         ok = msgs is not None and msgs_fit(msgs, N)
         cases.append(procset_case(whole, N, variants_for(s.rng, len(whole), False), msgs=msgs if ok else None))
+    for _ in range(60 if tier == "quick" else 600):
+        head = s.rng.choice(["A:K #13a\nb", "A:S \"x\ny\"", "A:H? #12\n\n", "A:E? 'p\nq'"])
+        tail = [s.rng.choice(["*I?", "*I?", "MEAS:VOLT?", "A:B:D?", "B:D?", "C"]) for _ in range(s.rng.randint(2, 6))]
+        whole = (head + "\n" + "\n".join(tail) + "\n").encode("latin1")
+        for N in (64, 128):
+            if len(whole) <= N:
+                cases.append(procset_case(whole, N, variants_for(s.rng, len(whole), False)))
     recs = s.execute(cases, "c07")
     rejected = s.validate(recs, "c07", chunk=400 if tier == "quick" else 800)
     s.report_rejected(rejected, "process produced different handler calls / errors / response bytes for two delivery schedules of one stream, "
@@ -438,6 +449,14 @@ def c10(tier):
         msgs = random_history(s.rng, vocab, s.rng.randint(3, 12), maxunits=3)
         whole = "".join(msgs)
         cases.append({"kind": "failset", "iface": "main", "N": 64, "stream": b(whole), "chunks": random_chunks(s.rng, len(whole))})
+    for L in range(0, 141):
+        msg = "A:E? '%s'\n" % ("a" * L)
+        for N in (128, 1024):
+            cases.append({"kind": "failset", "iface": "main", "N": N, "stream": b(msg), "chunks": s.rng.choice([[], [7, 200]])})
+    for _ in range(40 if tier == "quick" else 400):
+        a, c = s.rng.randint(0, 70), s.rng.randint(0, 70)
+        msg = "A:E? '%s';:A:E? \"%s\"\nB:D?\n" % ("x" * a, "y" * c)
+        cases.append({"kind": "failset", "iface": "main", "N": s.rng.choice([128, 1024]), "stream": b(msg), "chunks": []})
     recs = s.execute(cases, "c10")
     s.cov["injected_faults"] = sum(len(r["obs"]["f"]) for r in recs)
     rejected = s.validate(recs, "c10", chunk=150)
@@ -499,6 +518,12 @@ def c08_messages(rng, tier):
         msgs.append(b"A:B;K " + p + b";B\n")
         msgs.append(b"A:H? " + p + b";B\n")
         msgs.append(b"A:P 7,'s'," + p + b";D;:B:D?\n")
+    for n in (63, 64, 65, 127, 128, 200, 255, 256, 257, 300, 511, 512, 600, 900):
+        blk = block(bytes(rng.randrange(256) for _ in range(n - 2)) + b"\n;")
+        txt = quoted(("".join(rng.choice(["a", ";", "\n", "é", ","]) for _ in range(n))).encode("utf8"), b"'")
+        msgs.append(b"A:B;K " + blk + b";B\n")
+        msgs.append(b"A:H? " + blk + b";D\n")
+        msgs.append(b"A:B;S " + txt + b";B\n")
     for _ in range(200 if tier == "quick" else 3000):
         # longer seeded payloads: arbitrary UTF-8 strings, all byte values in blocks
         k = rng.randint(4, 24)
@@ -533,6 +558,9 @@ def c08(tier):
         vs = [{"chunks": []}, {"chunks": [1] * n}]
         pts = range(1, n) if tier == "thorough" or n <= 16 else s.rng.sample(range(1, n), 8)
         vs += [{"chunks": [k, n - k]} for k in pts]
+        if n > 60:
+            cases.append(procset_case(m, 1024, vs))
+            continue
         cases.append(procset_case(m, 64, vs))
         cases.append(procset_case(m, min(32, n), [{"chunks": []}, {"chunks": [1] * n}]))     # buffer just holds the message
     # pairs of such messages and a message after them (path must be the root again)
@@ -832,6 +860,12 @@ def c05(tier):
         procs = [{"N": N, "chunks": s.rng.choice([[], [1] * len(whole), random_chunks(s.rng, len(whole))])}
                  for N in s.rng.sample(range(1, 33), 6) + [47, 64]]
         cases.append({"kind": "multi", "iface": "main", "in": b(whole), "writers": mw, "procs": procs})
+    for ty, lit in c03_literals(s.rng, "quick")[-1200:] + [(t, l) for t in ("u8", "f32", "f64", "i64", "bool", "str") for l in LONG_NUMS]:
+        cases.append({"kind": "multi", "iface": "vals", "in": b("V:%s %s\n" % (TYNAME[ty], lit)), "writers": [{"k": "rec"}, {"k": "heapless", "cap": 64}],
+                      "procs": [{"N": 64, "chunks": []}]})
+    for n in ((63, 64, 65, 255, 256, 257, 1000, 4096) if tier == "quick" else (15, 16, 17, 63, 64, 65, 127, 128, 255, 256, 257, 300, 511, 512, 1000, 1023, 2048, 4095, 4096)):
+        for msg in (b"A:K " + block(bytes((7 * k) % 251 for k in range(n))) + b"\n", b"A:S '" + b"s" * n + b"'\n", b"A:E? \"" + b"e" * n + b"\"\n"):
+            cases.append({"kind": "multi", "iface": "main", "in": b(msg), "writers": mw[:4], "procs": [{"N": 1024, "chunks": []}] if n < 1000 else []})
     # (3) seeded random / mutated inputs over all 256 byte values
     for i in range(300 if tier == "quick" else 5000):
         n = s.rng.choice([1, 2, 5, 17, 64, 200, 1000, 4096 if tier == "thorough" else 600])
@@ -914,7 +948,7 @@ def set_desc(name, pool, chosen, std, err):
         cmd = pool[i - 1]
         beh = {"k": "const", "ty": "u8", "v": (k + 1) % 200} if cmd.endswith("?") else {"k": "ok"}
         cmds.append({"cmd": cmd, "args": [], "beh": beh, "async": k % 2 == 0})
-    return {"name": name, "attrs": attrs, "K": 4, "caps": [], "ns": [64], "cmds": cmds}
+    return {"name": name, "attrs": attrs, "K": 4, "caps": [], "ns": [64], "cmds": cmds, "abs_only": True}
 
 
 def cargo_json(pkg, cwd):
@@ -1017,6 +1051,12 @@ def tree_check(prop, tier):
     for k, x in enumerate(emitted):
         x["name"] = "t%04d" % k
         descs.append(set_desc(x["name"], pool, x["chosen"], x["std"], x["err"]))
+    wide = {"name": "wide0", "attrs": ["StandardCommands", "ErrorCommands"], "K": 4, "caps": [], "ns": [64], "cmds": [], "abs_only": True}
+    for n in range(300):
+        q = n % 3 == 0
+        wide["cmds"].append({"cmd": "CHANnel%d:LEVel%s" % (n, "?" if q else ""), "args": [],
+                             "beh": {"k": "const", "ty": "u16", "v": n} if q else {"k": "ok"}, "async": n % 2 == 0})
+    descs.append(wide)
     gen = os.path.join(C.HARNESS, "treegen", "src", "gen")
     os.makedirs(gen, exist_ok=True)
     mods = [(d["name"], G.iface_module(d)) for d in descs]
@@ -1124,6 +1164,12 @@ def tree_check(prop, tier):
                 h = (b":" if form == "abs" else b"") + b":".join(bytes(m) for m in mn) + (b"?" if q else b"")
                 units.append(h)
             cases.append({"kind": "run", "iface": x["name"], "in": b(b";".join(units) + b"\n"), "w": {"k": "rec"}})
+    if "wide0" in names:
+        for n in range(300):
+            for h in ("CHAN%d:LEV" % n, "channel%d:level" % n, "CHANNEL%d:LEV" % n, "CHAN%d:LEVE" % n):
+                for q in ("", "?"):
+                    cases.append({"kind": "run", "iface": "wide0", "in": b(h + q + "\n"), "w": {"k": "rec"}})
+        cases.append({"kind": "run", "iface": "wide0", "in": b("SYST:VERS?;ERR?;ERR:COUN?\n"), "w": {"k": "rec"}})
     cpath = os.path.join(s.wd, "tree.cases.ndjson")
     opath = os.path.join(s.wd, "tree.trace.ndjson")
     C.write_ndjson(cpath, cases)
@@ -1281,6 +1327,11 @@ def radix_lit(v, radix, rng=None):
     return pre + body
 
 
+LONG_NUMS = ["1E2147483647", "1E2147483648", "1e-2147483649", "1E4294967296", "-2.5e+99999999999", "1e99999999999999999999", "1E-99999999999999999999",
+             "0E99999999999", "1E0000000000000000000012", "1" + "0" * 40, "0." + "0" * 40 + "1", "0" * 40 + "7", "9" * 40 + ".5", "1." + "9" * 40 + "e-40",
+             "#H" + "0" * 30 + "FF", "#B" + "1" * 70, "#Q" + "7" * 30, "#H" + "F" * 17, "1e9223372036854775808", "1E-9223372036854775809", "1e32001", "1e-32001"]
+
+
 def c03_literals(rng, tier):
     """(type, literal text) pairs"""
     out = []
@@ -1311,6 +1362,14 @@ def c03_literals(rng, tier):
             for ty in ("u8", "i8", "bool", "f32", "i64"):
                 out.append((ty, lit))
             out.append(("u16", "#H" + lit))
+    # numeric fields of unusual length: exponent digits beyond i32/i64, long mantissas, many leading zeros
+    longs = LONG_NUMS
+    _unused = ["1E2147483647", "1E2147483648", "1e-2147483649", "1E4294967296", "-2.5e+99999999999", "1e99999999999999999999", "1E-99999999999999999999",
+             "0E99999999999", "1E0000000000000000000012", "1" + "0" * 40, "0." + "0" * 40 + "1", "0" * 40 + "7", "9" * 40 + ".5", "1." + "9" * 40 + "e-40",
+             "#H" + "0" * 30 + "FF", "#B" + "1" * 70, "#Q" + "7" * 30, "#H" + "F" * 17]
+    for ty in TYNAME:
+        for k in longs:
+            out.append((ty, k))
     # every kind of data into every type
     kinds = ["ON", "off", "On", "TRUE", "false", "MAX", "1", "0", "01", "1.0", "+1", "2", "#H1", "#B0", "#Q7", "#HFF", "'1'", '"ON"', "''", "#11", "#10", "#213abcdefghijklm", "1e0", "-0", "0.0", "1E400", "1e-400"]
     for ty in TYNAME:
@@ -1469,6 +1528,17 @@ def c04(tier):
         specials += [1 << k, (1 << k) - 1]
     for _ in range(400 if tier == "quick" else 20000):
         specials.append(s.rng.getrandbits(64))
+    import struct
+    for _ in range(300 if tier == "quick" else 10000):
+        f = struct.unpack(">f", struct.pack(">I", s.rng.getrandbits(32)))[0]
+        if f == f and abs(f) != float("inf"):
+            specials.append(struct.unpack(">Q", struct.pack(">d", f))[0])          # an f32 value widened to f64
+    for t in ("0.1", "3.3", "-230.1", "0.001", "9999999.5", "1.0000009537"):
+        f = struct.unpack(">f", struct.pack(">f", float(t)))[0]
+        specials.append(struct.unpack(">Q", struct.pack(">d", f))[0])
+    for _ in range(200 if tier == "quick" else 5000):
+        k = s.rng.randint(1, 52)                                                   # only the top k mantissa bits are used
+        specials.append((s.rng.getrandbits(1) << 63) | (s.rng.randint(1, 2046) << 52) | (s.rng.getrandbits(k) << (52 - k)))
     f64m = ["R:F64? %d" % (x & (2**64 - 1)) for x in specials]
     s32 = [0x0, 0x80000000, 0x1, 0x007FFFFF, 0x00800000, 0x7F7FFFFF, 0x7F800000, 0xFF800000, 0x7FC00000, 0x7F800001, 0x3F800000, 0x3DCCCCCD, 0x4B800000, 0x4B7FFFFF]
     for k in range(0, 32):
